@@ -59,10 +59,6 @@ def gen(rng, tier, ctx):
     return {"spec": spec, "seed": rng.randrange(10 ** 9), "n": GRAPHS[tier]}
 
 
-def witnesses():
-    return {}
-
-
 def run(case, ctx, mode=None):
     mode = mode or MODE
     C = ctx["counters"]
@@ -107,4 +103,10 @@ def run(case, ctx, mode=None):
 def classify(mode, f0, fails):
     if mode == "c05" and all(f.get("only_hierarchy_reference_lost") for f in fails):
         return "hierarchy-reference-mapped-one-to-many"
+    if all(f.get("only_alt_mapped_cycle") for f in fails):
+        return "alt-mapped-object-in-cycle-left-as-mapping"
     return None
+
+
+def witnesses():
+    return {"alt-mapped-object-in-cycle-left-as-mapping": {"handwritten": True, "seed": 1, "n": 120}}
